@@ -14,13 +14,15 @@ structure Attrs where
   name  : Option String := none
   resid : Option Int := none
   cg    : Option Int := none
+  chain : Option String := none
   deriving Repr, DecidableEq, Inhabited
 
 /-- `dict.update`: keys given in `new` overwrite. -/
 def Attrs.update (old new : Attrs) : Attrs :=
   { name := new.name.orElse (fun _ => old.name),
     resid := new.resid.orElse (fun _ => old.resid),
-    cg := new.cg.orElse (fun _ => old.cg) }
+    cg := new.cg.orElse (fun _ => old.cg),
+    chain := new.chain.orElse (fun _ => old.chain) }
 
 /-- `new_atom['resid'] = new_atom.get('resid', 1) + offset`, same for the charge group -/
 def Attrs.shift (a : Attrs) (roff coff : Int) : Attrs :=
@@ -120,6 +122,64 @@ def Mol.removeInter (m : Mol) (ty : String) (atoms : List Int) (version : Int) :
   match removeFirst m.inters ty atoms version with
   | some l => ({ m with inters := l }, .ok)
   | none => (m, .keyerror)
+
+/-! ### `remove_matching_interaction` / `interaction_match` -/
+
+/-- `attributes_match(node, template)`: every attribute the template gives must be equal -/
+def attrsMatch (node tmpl : Attrs) : Bool :=
+  (tmpl.name.isNone || tmpl.name == node.name) && (tmpl.resid.isNone || tmpl.resid == node.resid) &&
+  (tmpl.cg.isNone || tmpl.cg == node.cg) && (tmpl.chain.isNone || tmpl.chain == node.chain)
+
+/-- template of `remove_matching_interaction`: atoms, optional parameters (`none` = empty list =
+any), optional version in the meta template (`none` = meta template without version), optional
+per-atom attribute templates (`none` = plain `Interaction`, `some` = `DeleteInteraction`) -/
+structure Template where
+  atoms  : List Int
+  params : Option String := none
+  version : Option Int := none
+  atomAttrs : Option (List Attrs) := none
+  deriving Repr, DecidableEq, Inhabited
+
+/-- `interaction_match(molecule, interaction, template)`.  An atom of the interaction that is
+not a node makes the code raise KeyError; unreachable under the invariant, modelled as no match. -/
+def interMatch (nodes : List (Int × Attrs)) (t : Template) (i : Inter) : Bool :=
+  i.atoms == t.atoms && (t.params.isNone || t.params == some i.params) &&
+  (match t.atomAttrs with
+   | none => true
+   | some l => (i.atoms.zip l).all (fun ax =>
+       match lookupAttrs nodes ax.1 with
+       | some na => attrsMatch na ax.2
+       | none => false)) &&
+  (t.version.isNone || t.version == some i.version)
+
+/-- remove the first interaction of type `ty` satisfying `p` -/
+def removeFirstP (l : List (String × Inter)) (ty : String) (p : Inter → Bool) :
+    Option (List (String × Inter)) :=
+  match l with
+  | [] => none
+  | (t, j) :: rest =>
+    if t = ty ∧ p j = true then some rest
+    else (removeFirstP rest ty p).map (fun r => (t, j) :: r)
+
+def Mol.removeMatching (m : Mol) (ty : String) (t : Template) : Mol × Outcome :=
+  match removeFirstP m.inters ty (interMatch m.nodes t) with
+  | some l => ({ m with inters := l }, .ok)
+  | none => (m, .valueerror)
+
+/-! ### `edge_tuning.prune_edges_between_selections` / `prune_edges_with_selectors` -/
+
+def edgeBetween (a b : List Int) (e : Int × Int) : Bool :=
+  (a.contains e.1 && b.contains e.2) || (a.contains e.2 && b.contains e.1)
+
+def Mol.pruneEdges (m : Mol) (a b : List Int) : Mol :=
+  { m with edges := m.edges.filter (fun e => !edgeBetween a b e) }
+
+/-- `selectors.filter_minimal(molecule, lambda atom: atom.get('atomname') == n)` -/
+def Mol.selectByName (m : Mol) (n : String) : List Int :=
+  (m.nodes.filter (fun p => p.2.name == some n)).map Prod.fst
+
+def Mol.pruneByName (m : Mol) (na : String) (nb : Option String) : Mol :=
+  m.pruneEdges (m.selectByName na) (m.selectByName (nb.getD na))
 
 def dedupKeys : List Int → List Int
   | [] => []
@@ -263,6 +323,9 @@ inductive Op where
   | addInter (m : Nat) (ty : String) (atoms : List Int) (params : String) (version : Int)
   | addOrReplace (m : Nat) (ty : String) (atoms : List Int) (params : String) (version : Int) (cites : List String)
   | removeInter (m : Nat) (ty : String) (atoms : List Int) (version : Int)
+  | removeMatching (m : Nat) (ty : String) (t : Template)
+  | pruneEdges (m : Nat) (a b : List Int)
+  | pruneByName (m : Nat) (na : String) (nb : Option String)
   | copy (m : Nat)
   | subgraph (m : Nat) (ks : List Int)
   | merge (m j : Nat)
@@ -288,6 +351,9 @@ def step (p : Pool) : Op → Pool × Outcome
   | .addInter i ty atoms params version => onMol p i (fun m => m.addInter ty atoms params version)
   | .addOrReplace i ty atoms params version cites => onMol p i (fun m => m.addOrReplace ty atoms params version cites)
   | .removeInter i ty atoms version => onMol p i (fun m => m.removeInter ty atoms version)
+  | .removeMatching i ty t => onMol p i (fun m => m.removeMatching ty t)
+  | .pruneEdges i a b => onMol p i (fun m => (m.pruneEdges a b, .ok))
+  | .pruneByName i na nb => onMol p i (fun m => (m.pruneByName na nb, .ok))
   | .copy i => match p[i]? with
       | none => (p, .badindex)
       | some m => (p ++ [m.copy], .ok)
@@ -307,5 +373,97 @@ def step (p : Pool) : Op → Pool × Outcome
       | none => (p, .keyerror)
 
 def run (p : Pool) (ops : List Op) : Pool := ops.foldl (fun s o => (step s o).1) p
+
+/-! ### Systems (`vermouth.system.System`, `MergeAllMolecules`, `MergeChains`)
+
+A system holds REFERENCES to molecule objects: here a list of pool indices, so that a molecule
+that sits in a system (or in two) and is edited through the pool shows up in both views. -/
+
+/-- fold `merge_molecule` over the operands; stops at the first failure and returns the
+accumulator as it is then (the code has mutated it in place up to there) -/
+def mergeFold (acc : Mol) : List Mol → Mol × Outcome
+  | [] => (acc, .ok)
+  | o :: rest =>
+    match acc.merge o with
+    | (a, .ok) => mergeFold a rest
+    | (a, e) => (a, e)
+
+structure State where
+  pool : Pool := []
+  systems : List (List Nat) := []
+  deriving Repr, Inhabited, DecidableEq
+
+inductive SOp where
+  | mol (op : Op)
+  | newSys
+  | addMol (s i : Nat)
+  | copySys (s : Nat)
+  | mergeAll (s : Nat)
+  | mergeChains (s : Nat) (chains : List (Option String)) (all : Bool)
+  deriving Repr, Inhabited
+
+def getMols (p : Pool) (idxs : List Nat) : Option (List Mol) := idxs.mapM (fun i => p[i]?)
+
+/-- `molecule_chains.issubset(_chains)`; with `all_chains` the set holds every chain of the system -/
+def chainSelected (chains : List (Option String)) (all : Bool) (m : Mol) : Bool :=
+  all || m.nodes.all (fun p => chains.contains p.2.chain)
+
+/-- new molecule list of `merge_chains`: the merged molecule (pool index `n`) takes the place of
+the first selected molecule, the other selected ones disappear, the rest keep their order -/
+def replaceSelected (n : Nat) : List (Nat × Bool) → Bool → List Nat
+  | [], _ => []
+  | (i, sel) :: rest, done =>
+    if sel then (if done then replaceSelected n rest true else n :: replaceSelected n rest true)
+    else i :: replaceSelected n rest done
+
+/-- `Molecule()` as created inside `merge_chains` -/
+def freshMerged (nrexcl : Option Int) : Mol := { nrexcl := nrexcl, cites := ["vermouth"] }
+
+def sstep (st : State) : SOp → State × Outcome
+  | .mol op => let r := step st.pool op; ({ st with pool := r.1 }, r.2)
+  | .newSys => ({ st with systems := st.systems ++ [[]] }, .ok)
+  | .addMol s i =>
+      match st.systems[s]?, st.pool[i]? with
+      | some l, some _ => ({ st with systems := st.systems.set s (l ++ [i]) }, .ok)
+      | _, _ => (st, .badindex)
+  | .copySys s =>
+      match st.systems[s]? with
+      | none => (st, .badindex)
+      | some l =>
+        match getMols st.pool l with
+        | none => (st, .badindex)
+        | some ms => ({ pool := st.pool ++ ms.map Mol.copy,
+                        systems := st.systems ++ [List.range' st.pool.length ms.length] }, .ok)
+  | .mergeAll s =>
+      match st.systems[s]? with
+      | none => (st, .badindex)
+      | some [] => (st, .ok)
+      | some (i0 :: rest) =>
+        if rest.contains i0 then (st, .badindex) else     -- merging an object into itself
+        match st.pool[i0]?, getMols st.pool rest with
+        | some m0, some ms =>
+          let r := mergeFold m0 ms
+          ({ pool := st.pool.set i0 r.1,
+             systems := if r.2 = .ok then st.systems.set s [i0] else st.systems }, r.2)
+        | _, _ => (st, .badindex)
+  | .mergeChains s chains all =>
+      match st.systems[s]? with
+      | none => (st, .badindex)
+      | some l =>
+        if (all && !chains.isEmpty) || (!all && chains.isEmpty) then (st, .valueerror) else
+        match getMols st.pool l with
+        | none => (st, .badindex)
+        | some ms =>
+          let sels := ms.map (chainSelected chains all)
+          match (ms.zip sels).filter (fun x => x.2) with
+          | [] => (st, .ok)
+          | (f, _) :: more =>
+            let r := mergeFold (freshMerged f.nrexcl) (f :: more.map Prod.fst)
+            if r.2 = .ok then
+              ({ pool := st.pool ++ [r.1],
+                 systems := st.systems.set s (replaceSelected st.pool.length (l.zip sels) false) }, .ok)
+            else (st, r.2)
+
+def srun (st : State) (ops : List SOp) : State := ops.foldl (fun s o => (sstep s o).1) st
 
 end C12
